@@ -411,9 +411,13 @@ class ComponentLevel3( ComponentLevel2 ):
       for obj in writes:
         writer_prop[ obj ] = True # propagatable
 
+        # An ancestor is an unpropagatable writer unless it is written
+        # itself (don't let the iteration order of the set decide that
+        # when a block writes both s.x and s.x.a)
         obj = obj.get_parent_object()
         while obj.is_signal():
-          writer_prop[ obj ] = False
+          if obj not in writer_prop:
+            writer_prop[ obj ] = False
           obj = obj.get_parent_object()
 
     # Find the host object of every net signal
